@@ -72,6 +72,13 @@ def _job_worker(conn, cid, params, tier, seed, concrete, prop=None, sample=0, qu
                         fails.append(f.to_json())
             out = dict(failures=fails, error=err, obligations=obl, aborted=nab, sampled_runs=nrun, paths=0)
         elif concrete is not None:
+            if concrete.get("prelude"):
+                # the exploration ran this path after others in one process: repeat one earlier run of the same harness
+                # (all-default inputs) first, so that state the code keeps between runs is present as it was
+                try:
+                    Explorer(ct.harness, params=p, seed=seed).run_concrete({}, [])
+                except BaseException:  # noqa - not judged
+                    pass
             sub = ex.run_concrete(concrete["inputs"], concrete["choices"])
             out = dict(failures=[f.to_json() for f in sub.failures], error=sub.error,
                        obligations=sub.obl_count, aborted=sub.aborted)
@@ -373,6 +380,15 @@ def check_property(prop, tier="quick", seed=0, only=None, verbose=False, record_
     rj = [dict(cid=j["cid"], params=j["params"], tier=tier, seed=seed, prop=prop,
                concrete=dict(inputs=f["inputs"], choices=f["choices"])) for j, f in replay_jobs if f["kind"] in ("sat", "concrete")]
     rres = run_jobs(rj, nproc, 300) if rj else []
+    # a counter-model that does not reproduce in a fresh process may need what an earlier run of the same harness left behind
+    # in the process (module-level caches, class attributes): second attempt after a prelude run
+    retry = [k for k, r in enumerate(rres) if not (r and r.get("failures")) and not (r and r.get("error"))]
+    if retry:
+        rj2 = [dict(rj[k], concrete=dict(rj[k]["concrete"], prelude=True)) for k in retry]
+        for k, r in zip(retry, run_jobs(rj2, nproc, 300)):
+            if r and r.get("failures"):
+                r["after_prelude"] = True
+                rres[k] = r
     ri = 0
     os.makedirs(os.path.join(ROOT, "replays", prop), exist_ok=True)
     for j, f in replay_jobs:
@@ -385,7 +401,7 @@ def check_property(prop, tier="quick", seed=0, only=None, verbose=False, record_
         rep = dict(property=prop, contract=cid, params=_jsonable(j["params"]), obligation=f["label"],
                    inputs=f["inputs"], choices=f["choices"], detail=f.get("detail"), solver=f["kind"],
                    model=f.get("model"), smt2=f.get("smt2"), tier=tier, seed=seed,
-                   native_replay=dict(confirmed=confirmed,
+                   native_replay=dict(confirmed=confirmed, needs_an_earlier_run_in_the_same_process=bool((rr or {}).get("after_prelude")),
                                       failures=(rr or {}).get("failures"), error=(rr or {}).get("error")),
                    targets=reg[cid].targets)
         safe = "%s.%s" % (cid, "".join(ch if ch.isalnum() or ch in "-_." else "_" for ch in f["label"]))[:150]
@@ -563,7 +579,8 @@ def _z3v():
 def replay_file(path):
     rep = json.load(open(path))
     j = dict(cid=rep["contract"], params=rep["params"], tier=rep.get("tier", "quick"), seed=rep.get("seed", 0), prop=rep.get("property"),
-             concrete=dict(inputs=rep["inputs"], choices=rep["choices"]))
+             concrete=dict(inputs=rep["inputs"], choices=rep["choices"],
+                           prelude=bool((rep.get("native_replay") or {}).get("needs_an_earlier_run_in_the_same_process"))))
     r = run_jobs([j], 1, 600)[0]
     print(json.dumps(dict(obligation=rep["obligation"], reproduced=bool(r.get("failures")), failures=r.get("failures"), error=r.get("error")), indent=1, default=str))
     return 1 if r.get("failures") else 0
